@@ -17,6 +17,7 @@ import sys
 import threading
 
 from . import catalogue, sitekind
+from .simthreading import SimDeadlock
 
 
 class SimBudgetExceeded(BaseException):
@@ -45,7 +46,7 @@ class Kernel:
     def __init__(self, seed=0, faults=None, switches=None, gen_rng=None,
                  p_point=0.0, p_line=0.0, trace_dir=None, line_crash=None,
                  max_events=4000, max_lines=400000, count_lines=False,
-                 fault_gen=None, cat=None, counts_init=None):
+                 fault_gen=None, cat=None, counts_init=None, shim=None):
         self.cat = cat if cat is not None else catalogue.Catalogue(None)
         self.seed = seed
         self.faults = dict(faults or {})        # fkey -> fault descriptor (see catalogue.make_exc)
@@ -72,6 +73,9 @@ class Kernel:
         self.crashed_at = None
         self._local = threading.local()
         self.reach = {}
+        self.shim = shim                        # the instance's simulated ``threading`` module
+        self.blocked = {}                       # task id -> lock it waits for
+        self.deadlock = None
 
     # ---------------------------------------------------------------- log
     def hit(self, name, n=1):
@@ -91,6 +95,8 @@ class Kernel:
     def digest(self):
         h = hashlib.sha256(json.dumps(self.log, sort_keys=True, default=str).encode())
         h.update(json.dumps([self.switch_seq, self.fired, self.crashed_at]).encode())
+        if self.deadlock is not None:
+            h.update(json.dumps(self.deadlock, sort_keys=True).encode())
         return h.hexdigest()[:20]
 
     def task_log(self, task):
@@ -130,17 +136,51 @@ class Kernel:
         if self.gen_rng is not None:
             p = self.p_line if line else self.p_point
             if p and self.gen_rng.random() < p:
-                others = [t.tid for t in tasks if not t.done and t.tid != me]
+                others = [t.tid for t in tasks if not t.done and t.tid != me and not self._is_blocked(t.tid)]
                 if others:
                     target = self.gen_rng.choice(others)
                     self.switches[self.yp] = target
         else:
             target = self.switches.get(self.yp)
-            if target is not None and (target == me or target >= len(tasks) or tasks[target].done):
+            if target is not None and (target == me or target >= len(tasks) or tasks[target].done
+                                       or self._is_blocked(target)):
                 target = None
         if target is None:
             return
         self._switch_to(target, park=True)
+
+    # ---------------------------------------------------------------- simulated locks
+    def _is_blocked(self, tid):
+        lock = self.blocked.get(tid)
+        return lock is not None and lock.owner is not None
+
+    def lock_wait(self, lock, me):
+        """task *me* wants *lock*, which another task holds: run somebody else until it is free.
+        Who runs is a forced choice point (recorded in the switch map like a finished task's)"""
+        tid = me[2]
+        self.hit('lock.contended')
+        self.blocked[tid] = lock
+        try:
+            while lock.owner is not None:
+                if self.deadlock is not None:
+                    raise SimDeadlock('deadlock')
+                self.yp += 1
+                cands = [t.tid for t in self.tasks if not t.done and t.tid != tid and not self._is_blocked(t.tid)]
+                if not cands:
+                    self.deadlock = {'kind': 'cycle', 'task': tid,
+                                     'waiting': sorted(self.blocked)}
+                    self.hit('lock.deadlock')
+                    raise SimDeadlock('every live task waits for a lock')
+                if self.gen_rng is not None:
+                    target = self.gen_rng.choice(cands)
+                    self.switches[self.yp] = target
+                else:
+                    target = self.switches.get(self.yp)
+                    if target not in cands:
+                        target = cands[0]
+                self._switch_to(target, park=True)
+        finally:
+            self.blocked.pop(tid, None)
 
     def _switch_to(self, target, park):
         me = self.cur_task
@@ -152,6 +192,8 @@ class Kernel:
         if park:
             if not tasks[me].sem.acquire(timeout=60):
                 raise SimHarnessError('baton lost')
+            if self.deadlock is not None and me in self.blocked:
+                raise SimDeadlock('deadlock')
 
     def _task_finished(self):
         """called by a finishing task: hand the baton to someone (a forced choice point)"""
@@ -174,10 +216,15 @@ class Kernel:
         self.cur_task = target
         tasks[target].sem.release()
 
+    def _activate(self):
+        if self.shim is not None:
+            self.shim.kernel = self
+
     def run_single(self, thunk, task_id=0):
         """run one thunk on the calling thread as task *task_id* (no scheduling)"""
         self.tasks = None
         self.cur_task = task_id
+        self._activate()
         if self.line_crash:
             # an exception raised from a trace function at a line inside an ``except`` body can leave
             # the interpreter's "currently handled exception" un-popped for the rest of the thread
@@ -205,6 +252,9 @@ class Kernel:
         if len(thunks) == 1:
             return [self.run_single(thunks[0], 0)]
         self.tasks = [_Task(i, th) for i, th in enumerate(thunks)]
+        self._activate()
+        self.blocked = {}
+        self.deadlock = None
         self._all_done = threading.Event()
         threads = []
         for t in self.tasks:
@@ -259,6 +309,13 @@ class Kernel:
     # ---------------------------------------------------------------- tracing
     _line_switches = False
 
+    def _at_with_edge(self, frame):
+        shim = self.shim
+        if shim is None or not getattr(shim, 'n_held', 0):
+            return False
+        import linecache
+        return linecache.getline(frame.f_code.co_filename, frame.f_lineno).lstrip().startswith('with ')
+
     def enable_line_mode(self):
         """replay mode: line events must be counted as yield points"""
         self._line_switches = True
@@ -274,7 +331,14 @@ class Kernel:
             if self.ln > self.max_lines:
                 raise SimBudgetExceeded('lines')
             lc = self.line_crash
-            if lc is not None and self.ln == lc['at']:
+            if lc is not None and self.ln == lc['at'] + lc.get('_shift', 0):
+                if self._at_with_edge(frame):
+                    # an asynchronous exception that lands between the end of a ``with lock:`` body
+                    # and the call of __exit__ leaves the lock held for good -- in any Python
+                    # program; that edge is not a crash point (the body, and any region between a
+                    # bare acquire() and release(), still is)
+                    lc['_shift'] = lc.get('_shift', 0) + 1
+                    return self._ltrace
                 self.crashed_at = [frame.f_code.co_name, frame.f_lineno]
                 if lc['exc'] == 'BaseException':
                     raise LineCrashBase('line-crash')
